@@ -318,12 +318,12 @@ def judge_e2e(case):
 
 
 SUBS = [
-    Sub("pick", judge_pick, pick_case(), quick=300, thorough=8000,
+    Sub("pick", judge_pick, pick_case(), quick=300, thorough=24000,
         rule="fdd.SD_svalsvec + fdd.FDD_mpe: Fn is a grid line in the band with maximal sigma1/sigma2; Phi = conj(u1) there, unity-normalised"),
-    Sub("decomposition", judge_decomposition, pick_case(), quick=60, thorough=2000,
+    Sub("decomposition", judge_decomposition, pick_case(), quick=60, thorough=6000,
         rule="stored vectors unitary, values non-negative non-increasing and consistently sigma or sqrt(sigma); U diag(sigma^2) U^H = Sy Sy^H at every line"),
-    Sub("narrow_band", judge_narrow, narrow_case(), quick=100, thorough=4000,
+    Sub("narrow_band", judge_narrow, narrow_case(), quick=100, thorough=12000,
         rule="grid-line sinusoid with complex channel amplitudes through SingleSetup+FDD: mode shape = a/a[argmax|a|] (not its conjugate) to 1e-6"),
-    Sub("end_to_end", judge_e2e, e2e_case(), quick=48, thorough=800,
+    Sub("end_to_end", judge_e2e, e2e_case(), quick=48, thorough=2400,
         rule="FDD / FDD_MS / first stage of EFDD, FSDD on random-response data: result.Fn, result.Phi re-derived from result.Sy by the pick oracle"),
 ]
